@@ -396,6 +396,12 @@ impl TextResourceBuilder {
                     serde_path_to_error::deserialize(deserializer);
                 match result {
                     Ok(mut builder) => {
+                        if builder.text.is_none() {
+                            //the file has to provide the text, otherwise we would load the same file over and over
+                            return Err(StamError::NoText(
+                                "STAM JSON file for a text resource holds no text",
+                            ));
+                        }
                         //recursion step into the new builder:
                         if self.id.is_some() && builder.id.is_none() {
                             builder.id = self.id;
